@@ -102,7 +102,26 @@ def _gen(chunks):
             raise _Boom('handler generator failed')
 
 
+class _ClosableIter(object):
+    """an iterator object (not a generator) whose close() fails: what a database cursor / network stream
+    wrapped by application code can do"""
+
+    def __init__(self, chunks):
+        self._it = _gen(chunks)
+
+    def __iter__(self):
+        return self
+
+    def __next__(self):
+        return next(self._it)
+
+    def close(self):
+        raise _Boom('close failed')
+
+
 def make_body(kind, chunks):
+    if kind == 'K':
+        return _ClosableIter(chunks)
     if kind == 'B':
         return chunks[0][1] if chunks else b''
     if kind == 'S':
@@ -342,12 +361,25 @@ def environ_for(req):
     return env
 
 
+class _Timeout(BaseException):
+    """raised by the per-request interval timer: the code under test did not answer in time"""
+
+
+REQUEST_TIMEOUT = 30.0       # seconds of wall time for one request of a case (a healthy one takes < 5 ms)
+
+
+def _on_alarm(signum, frame):
+    raise _Timeout()
+
+
 def wsgi_call(app, environ):
-    """PEP 3333 server emulation.  Headers 'go out' with the first non-empty chunk."""
+    """PEP 3333 server emulation.  Headers 'go out' with the first non-empty chunk.  Whatever the code under
+    test raises (from the application callable, while its result is iterated, or from its close()) is an
+    observation (`aborted`), never a harness error."""
     st = {'status': None, 'headers': None, 'sent': False, 'sent_status': None, 'sent_headers': None}
 
     def write(data):
-        raise common.HarnessError('write() callable used')
+        st['write_used'] = True
 
     def start_response(status, headers, exc_info=None):
         if exc_info is not None:
@@ -358,7 +390,12 @@ def wsgi_call(app, environ):
                 exc_info = None
         elif st['status'] is not None:
             raise AssertionError('start_response called twice without exc_info')
-        st['status'], st['headers'] = status, list(headers)
+        try:
+            headers = list(headers)
+        except Exception:
+            headers = []
+            st['bad_headers'] = True
+        st['status'], st['headers'] = status, headers
         if 'first' not in st:
             st['first'] = (status, list(headers))
         return write
@@ -375,44 +412,86 @@ def wsgi_call(app, environ):
                 st['sent'] = True
                 st['sent_status'], st['sent_headers'] = st['status'], st['headers']
             chunks.append(chunk)
-    except Exception as e:    # noqa
+    except (_Timeout, KeyboardInterrupt):
+        raise
+    except BaseException as e:    # noqa
         aborted = 'exc:' + type(e).__name__
     finally:
         if result is not None and hasattr(result, 'close'):
             try:
                 result.close()
-            except Exception:
-                pass
+            except (_Timeout, KeyboardInterrupt):
+                raise
+            except BaseException as e:   # noqa  (PEP 3333: the server calls close() in every case; an exception
+                #                                 out of it reaches the server like one raised during iteration)
+                if aborted is None:
+                    aborted = 'close:' + type(e).__name__
+    if st.get('write_used') and aborted is None:
+        aborted = 'write-callable'
     status = st['sent_status'] if st['sent'] else st['status']
     headers = st['sent_headers'] if st['sent'] else st['headers']
     return status, headers or [], chunks, aborted, st.get('first')
 
 
-def observe(app, req):
-    REC.clear()
-    status, headers, chunks, aborted, first = wsgi_call(app, environ_for(req))
+def _status_code(status):
+    """'200 OK' -> 200; anything unparsable (a type change in the code under test) -> None"""
+    try:
+        if isinstance(status, bytes):
+            status = status.decode('latin-1')
+        return int(str(status).split(' ', 1)[0])
+    except Exception:
+        return None
+
+
+def _header_dict(headers):
     hd = {}
-    for k, v in headers:
-        hd.setdefault(k.lower(), []).append(v)
-    fh = {}
-    for k, v in (first[1] if first else []):
-        fh.setdefault(k.lower(), []).append(v)
+    try:
+        for item in headers:
+            k, v = item
+            if isinstance(k, bytes):
+                k = k.decode('latin-1')
+            if isinstance(v, bytes):
+                v = v.decode('latin-1')
+            hd.setdefault(str(k).lower(), []).append(str(v))
+    except Exception:
+        hd['x-c06-unparsable-headers'] = ['1']
+    return hd
+
+
+def observe(app, req):
+    import signal
+    REC.clear()
+    timed_out = False
+    old_handler = signal.signal(signal.SIGALRM, _on_alarm)
+    signal.setitimer(signal.ITIMER_REAL, REQUEST_TIMEOUT)
+    try:
+        status, headers, chunks, aborted, first = wsgi_call(app, environ_for(req))
+    except _Timeout:
+        timed_out = True
+        status, headers, chunks, aborted, first = None, [], [], 'hang', None
+    finally:
+        signal.setitimer(signal.ITIMER_REAL, 0)
+        signal.signal(signal.SIGALRM, old_handler)
+    hd = _header_dict(headers)
+    fh = _header_dict(first[1] if first else [])
     delivered = sum(len(c) for c in chunks)
     return {
-        'status': int(status.split(' ', 1)[0]) if status else None,
+        'status': _status_code(status) if status is not None else None,
         'cl': hd.get('content-length'),
         'ct': (hd.get('content-type') or [None])[0],
         'ce': (hd.get('content-encoding') or [None])[0],
         'etag': (hd.get('etag') or [None])[0],
+        'te': (hd.get('transfer-encoding') or [None])[0],
         'delivered': delivered,
         'aborted': aborted,
+        'hang': timed_out,
         'stream': REC.get('stream'),
         'cached': REC.get('cached'),
         'etag_seen': REC.get('etag_seen'),
         'body': b''.join(chunks),
         # what the application committed to in its first start_response call (before any replacement by
         # the exception trapper after a failure during body iteration)
-        'first': {'status': int(first[0].split(' ', 1)[0]) if first else None,
+        'first': {'status': _status_code(first[0]) if first else None,
                   'cl': fh.get('content-length'), 'ct': (fh.get('content-type') or [None])[0]},
     }
 
